@@ -459,7 +459,7 @@ def base_tree(rng, pools, nmax=25):
                     p_unary=rng.choice([0, 0.2, 0.4]),
                     moves=rng.choice([0, 0, 0, 1, 3]),
                     root_pieces=rng.choice([1, 1, 2, 3]),
-                    sid=rng.choice([1, 2, 7, 42]))
+                    sid=rng.choice([1, 2, 7, 42, 0, 0]))
 
 
 CATS = ['S', 'NP', 'VP', 'SBAR', 'WHNP', 'PP', 'ADVP', 'SQ']
